@@ -81,7 +81,12 @@ def hist(seed):
             elif k=='dist': g.set_distance_mode(rnd.choice(['absolute','relative']))
             elif k=='emode': g.set_extrusion_mode(rnd.choice(['absolute','relative']))
             elif k=='fmode': g.set_feed_mode(rnd.choice(['1/time','units/min','units/rev']))
-            elif k=='units': g.set_length_units(rnd.choice(['mm','in']))
+            elif k=='units':
+                u=rnd.choice(['mm','in']); before_u=g.state.length_units.value; before_r=g.state.resolution
+                g.set_length_units(u)
+                same = (u=='mm')==(before_u=='millimeters')
+                want = before_r if same else (before_r/25.4 if u=='in' else before_r*25.4)
+                if abs(g.state.resolution-want)>1e-9*max(1,abs(want)): issues.append(('C07 resolution not rescaled',seed,i,k,g.state.resolution,want))
             elif k=='plane': g.set_plane(rnd.choice(['xy','yz','zx']))
             elif k=='sleep': g.sleep(rnd.choice(vals))
             elif k=='fan': g.set_fan_speed(rnd.choice([0,100,255]))
